@@ -23,7 +23,11 @@ RULE = (
 RULE += (
     " Added body: a plain function that hands back its value through asynq.result(). Added conventions per "
     "cell: the same requests (sync call, .asynq().value(), async_call) made synchronously by a task that is "
-    "RUNNING at that moment."
+    "RUNNING at that moment. Two more units: look-alike callables (two decorated callables made by one "
+    "factory, asked for with equal arguments while the other is in flight: 7 decorators x function / method of "
+    "instances that compare equal / staticmethod x 4 conventions) and short-lived instances (60 instances per "
+    "decorator come and go - a later one may live where an earlier one did - calling their method with the "
+    "same arguments through 5 conventions)."
 )
 ASSUMPTIONS = ["bodies are deterministic, so cached wrappers (alru_cache, acached_per_instance, deduplicate) return the twin's value on every call"]
 UNIT_TIMEOUT = {"quick": 200, "thorough": 1200}
